@@ -65,4 +65,11 @@ def descMesgOK : Bool :=
 
 theorem descMesgOK_true : descMesgOK = true := by decide +kernel
 
+/-- no message name `MesgNum.String()` gives, and not "unknown", holds a separator or a quote: the message cell of a
+line is written as it is -/
+def mesgNamesPlainOK : Bool :=
+  mesgNames.all (fun p => (txt p.2).all fun b => b != 44 && b != 34) && unknownTxt.all (fun b => b != 44 && b != 34)
+
+theorem mesgNamesPlainOK_true : mesgNamesPlainOK = true := by decide +kernel
+
 end Fit.Csv
